@@ -58,7 +58,7 @@ def fragmentOnCert (fp : Bool) (p : Prog) (c : ProgCert) (dyn : Bool := false) (
     p.subs.all (fun sd => !certHas c sd.id ||
       (okCallsOf p sd).all (fun g => sd.reenters.contains g || (reachSet p g).all (certHas c))))) &&
   -- by-reference discipline: the declared routines that the main routine / a certified routine calls are certified
-  (!(strict && !fp) ||
+  (!strict ||
     ((callsOf p.main).all (fun g => certHas c g || (findSub p g).isNone) &&
      p.subs.all (fun sd => !certHas c sd.id || (callsOf sd.body).all (fun g => certHas c g || (findSub p g).isNone))))
 
